@@ -18,7 +18,7 @@ Definition guard_cell_exclusive (c : cfg) (tr : list (nat * ev)) : Prop :=
       live c (hist (firstn d tr)) s kl /\
       forall i te, g0 < i < d -> nth_error tr i = Some te -> ~ is_slot_of s (snd te).
 
-(** the corrected statement (NOT proved in full, see DhpLiveGcD for what is): extension blocks have at least one cell *)
+(** the corrected statement (proved: [DhpLiveGxP.dhp_guard_cell_exclusive_corrected]): extension blocks have at least one cell *)
 Definition dhp_guard_cell_exclusive_corrected_statement : Prop := forall fuel c ths conf,
   Conc.reach (init_cfg fuel c ths) conf -> flbad (hist (Conc.trace conf)) = false -> 1 <= c_GB c ->
   guard_cell_exclusive c (Conc.trace conf).
